@@ -280,31 +280,44 @@ def parse_instr(line):
     if op == 'tail' or op == 'musttail' or op == 'notail':
         op = c.next()
     I = lambda ty, a, x=None: Instr(op, dst, ty, a, x, dbg, text)
+    def _align():
+        # trailing ", align N"
+        a = None
+        while c.eat(','):
+            if c.peek() == 'align':
+                c.next()
+                a = int(c.next())
+            else:
+                break
+        return a
     if op == 'alloca':
         c.eat('inalloca')
         ty = parse_type(c)
         n = None
+        al = None
         if c.eat(','):
             if c.peek() == 'align':
-                pass
+                c.next()
+                al = int(c.next())
             else:
                 nt = parse_type(c)
                 n = parse_value(c, nt)
-        return I(ty, (n,))
+                al = _align()
+        return I(ty, (n,), al)
     if op == 'load':
         while c.peek() in ('volatile', 'atomic'):
             c.next()
         ty = parse_type(c)
         c.expect(',')
         pt, p = parse_tv(c)
-        return I(ty, (p,))
+        return I(ty, (p,), _align())
     if op == 'store':
         while c.peek() in ('volatile', 'atomic'):
             c.next()
         ty, v = parse_tv(c)
         c.expect(',')
         pt, p = parse_tv(c)
-        return I(ty, (v, p))
+        return I(ty, (v, p), _align())
     if op == 'getelementptr':
         c.eat('inbounds')
         bt = parse_type(c)
